@@ -642,7 +642,7 @@ func families(tier string) []fw.Family {
 	}
 	small := []float64{1e-4, 1e-5, 1e-6}
 	fs = append(fs, segFamily(fmt.Sprintf("arc(...) x0.001 (every %d.), tolerances 1e-4..1e-6", step), curvefam.NArc/step, func(i int64) oracle.Seg { return curvefam.Arc(i*step, rots) }, 0.001, small))
-	fs = append(fs, twoSegments(tols), twoSubpaths(tols), thinEllipses(tols), nearCollinear(tier), largeFine(tier), lineBetweenCurves(tols), almostClosedArcs(tols))
+	fs = append(fs, twoSegments(tols), twoSubpaths(tols), thinEllipses(tols), nearCollinear(tier), largeFine(tier), lineBetweenCurves(tols), almostClosedArcs(tols), rotatedCircles(tols))
 	return fs
 }
 
